@@ -21,12 +21,18 @@ Recs == TLCGet(7)
 Verdict(rec) ==
   LET r == Parse(rec.fam, rec.text)
       good ==
-        CASE r.s = "unspec" -> TRUE
-          [] r.s = "reject" -> rec.kind = "assign" /\ rec.how = "rterror"
-          [] r.s = "ok" -> /\ rec.how = "ok"
-                           /\ rec.stored = r.bytes
-                           /\ LET b == Parse(rec.fam, rec.readback) IN b.s = "ok" /\ b.bytes = r.bytes
-                           /\ rec.kind = "display" => r.bytes = rec.orig
+        IF rec.kind = "display"
+        THEN \* the displayed text of an address, whatever form the display chooses, is accepted back and stores
+             \* that address (when the form is one the reference parser settles, it must also denote it)
+             /\ rec.how = "ok"
+             /\ rec.stored = rec.orig
+             /\ (r.s = "ok" => r.bytes = rec.orig)
+             /\ r.s # "reject"
+        ELSE CASE r.s = "unspec" -> TRUE
+               [] r.s = "reject" -> rec.how = "rterror"
+               [] r.s = "ok" -> /\ rec.how = "ok"
+                                /\ rec.stored = r.bytes
+                                /\ LET b == Parse(rec.fam, rec.readback) IN b.s = "ok" /\ b.bytes = r.bytes
   IN [id |-> rec.id, v |-> IF good THEN "ok" ELSE "bad", exp |-> r.s]
 
 VARIABLE pc
